@@ -25,7 +25,7 @@
 #define STRIDE 0x20000UL
 #define PAGE   4096UL
 #define DATA   0x10000UL
-#define MAXBLK 4
+#define MAXBLK 6
 #define OUT(...) fprintf(res, __VA_ARGS__)
 #define MAXARG 16
 
